@@ -1,0 +1,16 @@
+//go:build verif
+
+// Contracts for the gvc verifier (/verif). This file contains comments only:
+// with the "verif" build tag off it is not compiled, with it on it adds no code.
+
+package expr
+
+// Compiling an expression (C15, used by the schema compiler): a machine is returned exactly when there is no error,
+// it is a new machine, and it is the machine of the expression that was given (mach_expr is an uninterpreted
+// observation: "the text this machine was compiled from").
+//@ func NewExprMachine
+//@   assumed
+//@   ensures iff(result1 == nil, result0 != nil) && implies(result0 != nil, isfresh(result0) && mach_expr(result0) == expr)
+//@ func NewExprMachineWithCustomFunctions
+//@   assumed
+//@   ensures iff(result1 == nil, result0 != nil) && implies(result0 != nil, isfresh(result0) && mach_expr(result0) == expr)
